@@ -863,7 +863,7 @@ def run_c20(t):
 # ------------------------------------------------------------------ C17
 BAD_CLASSES = ["len_mismatch", "nonfinite", "nonbinary_ts", "ctx_presence", "ctx_rows", "ctx_width", "add_dup", "add_none", "add_nan",
                "add_inf", "rem_unknown", "warm_nondict", "warm_q_int", "warm_q_range", "warm_keys", "too_few_rows", "bad_types",
-               "predict_ctx_presence", "ctx_1d", "predict_ctx_width"]
+               "predict_ctx_presence", "ctx_1d", "predict_ctx_width", "add_unhashable"]
 
 def history_dims(base, upto):
     d = None; arms = list(base["arms"]); fitted = False; nrows = 0
@@ -962,6 +962,9 @@ def bad_call(mab, label, inv, base, cls, rng, d, arms, fitted, all_arms=False):
             mab.add_arm(np.nan)
         elif cls == "add_inf":
             mab.add_arm(np.inf)
+        elif cls == "add_unhashable":
+            # an arm of a type that cannot be a dictionary key (a list, a dict): the policies raise when they file it
+            mab.add_arm(rng.choice([[3, 4], {"a": 1}, [label(97)]]))
         elif cls == "rem_unknown":
             mab.remove_arm(label(97))
         elif cls == "warm_nondict":
